@@ -50,6 +50,40 @@ def r1(chk, repo, d):
                ("expr", lambda: d.expr("v", False, False)),
                ("signed expr", lambda: d.expr("v", True, False)),
                ("register", lambda: d.register("v", True, False, False))]
+    # the decision may depend on the format only: any other attribute of
+    # the Memory object it reads is state that somebody can switch
+    state = {}
+    for dun in ("__iadd__", "__isub__"):
+        fn = repo.func(E + "Memory." + dun)
+        for a in walk_no_nested(fn):
+            if isinstance(a, ast.Attribute) and isinstance(
+                    a.value, ast.Name) and a.value.id == "self" and \
+                    a.attr not in ("fmt", "ebpf") and isinstance(
+                        a.ctx, ast.Load) and not isinstance(
+                            getattr(a, "_parent", None), ast.Call):
+                state.setdefault(a.attr, a)
+    for attr, node in sorted(state.items()):
+        offs = []
+        for m_ in repo.production_modules():
+            for st in ast.walk(m_.tree):
+                if isinstance(st, ast.Assign):
+                    for t in st.targets:
+                        if isinstance(t, ast.Attribute) and t.attr == attr \
+                                and not (isinstance(st.value, ast.Constant)
+                                         and st.value.value is True) \
+                                and not (isinstance(st.value, ast.Name)
+                                         and repo.enclosing_function(st)
+                                         is not None and repo.
+                                         enclosing_function(st).name
+                                         == "__init__"):
+                            offs.append(st)
+        chk.ob("R06.1", E + "Memory.__iadd__", f"the atomic lowering does "
+               f"not depend on the switchable attribute `{attr}`", not offs,
+               offs[0] if offs else node,
+               f"`{unparse(offs[0])[:60]}` ({repo.where(offs[0])}) turns "
+               f"in-place additions on those Memory objects into load, "
+               f"add, store: two program instances then lose updates"
+               if offs else f"`{attr}` is never switched off")
     for dun in ("__iadd__", "__isub__"):
         fails = []
         rows = 0
@@ -58,6 +92,8 @@ def r1(chk, repo, d):
             for an, mk in amounts:
                 rows += 1
                 m = d.memory("m", fmt)
+                for attr in state:
+                    m.fields.setdefault(attr, True)
                 amt = mk()
                 try:
                     r = d.ev.call(d.ev._dunder(m, dun), [amt])
